@@ -9,7 +9,7 @@ git apply $dir/patch.diff || { echo "{\"id\":\"$id\",\"applies\":false}"; exit 1
 suite=$(cargo test --offline -p wayfind 2>&1 | grep -E "^test result" | awk '{p+=$4; f+=$6} END{print p" "f}')
 cp $dir/demo.rs tests/seeded_demo.rs
 with=$(cargo test --offline -p wayfind --test seeded_demo 2>&1 | grep -E "^test result" | awk '{print $4" "$6}')
-git checkout -q -- src
+git checkout -q -- src examples
 without=$(cargo test --offline -p wayfind --test seeded_demo 2>&1 | grep -E "^test result" | awk '{print $4" "$6}')
 rm -f tests/seeded_demo.rs
 echo "{\"id\":\"$id\",\"applies\":true,\"suite_passed_failed_with_change\":\"$suite\",\"demo_passed_failed_with_change\":\"$with\",\"demo_passed_failed_without\":\"$without\"}"
